@@ -263,9 +263,10 @@ class Proj:
                 if onstart:
                     opts.append("onstart")
                 L.append("%sdepends %s%s" % (i2, ref, " { %s }" % " ".join(opts) if opts else ""))
-            for to in t.precedes:
+            for pr in t.precedes:
+                to, pgap = pr if isinstance(pr, tuple) else (pr, 0)
                 ref = self.relref(t, to) if dep_style == "rel" else self.full(to)
-                L.append("%sprecedes %s" % (i2, ref))
+                L.append("%sprecedes %s%s" % (i2, ref, " { gapduration %s }" % fmt_dur(pgap) if pgap else ""))
             if t.limits:
                 L.append("%slimits { %s }" % (i2, " ".join(
                     "%s %s%s" % ("dailymax" if k == "d" else "weeklymax", fmt_limit(v),
@@ -291,8 +292,9 @@ class Proj:
         rix = {id(r): i + 1 for i, r in enumerate(res)}
         prec = {}
         for t in tasks:
-            for to in t.precedes:
-                prec.setdefault(id(to), []).append(t)
+            for pr in t.precedes:
+                to, pgap = pr if isinstance(pr, tuple) else (pr, 0)
+                prec.setdefault(id(to), []).append((t, pgap))
         T = []
         for i, t in enumerate(tasks):
             ov = t.scen.get(scenario, {}) if scenario else {}
@@ -308,9 +310,11 @@ class Proj:
                 x = x.parent
             deps = [{"p": tix[id(d[0])], "onstart": bool(d[1]), "gap": int(d[2]), "clone": False, "maxgap": False,
                      "gaplen": bool(len(d) > 3 and d[3]), "glen": int(d[3] // 3600) if (len(d) > 3 and d[3]) else 0} for d in t.deps]
-            for src in prec.get(id(t), []):
-                e = {"p": tix[id(src)], "onstart": False, "gap": 0, "clone": False, "maxgap": False, "gaplen": False, "glen": 0}
-                if not any(d["p"] == e["p"] for d in deps):
+            for src, pgap in prec.get(id(t), []):
+                # `a precedes t` is `t depends a` (finish-to-start, with the gap written there): an edge of its own unless the
+                # very same edge is already written on t
+                e = {"p": tix[id(src)], "onstart": False, "gap": int(pgap), "clone": False, "maxgap": False, "gaplen": False, "glen": 0}
+                if e not in deps:
                     deps.append(e)
             own_start = ov.get("start", t.start)
             own_end = ov.get("end", t.end)
@@ -650,7 +654,11 @@ def dags(rng, n, alap_share=0.3):
                         if gap % 60:
                             gap = G
                         onstart = (not alap) and rng.random() < 0.2
-                        if rng.random() < 0.15 and not gap and not onstart and not t.kids and not u.kids:
+                        if rng.random() < 0.2 and not onstart and not t.kids and not u.kids and not alap:
+                            u.precedes.append((t, gap) if gap else t)         # `precedes` may carry the gap
+                            if rng.random() < 0.3:
+                                t.deps.append((u, True, 0))               # ... next to an on-start edge to the same task
+                        elif rng.random() < 0.15 and not gap and not onstart and not t.kids and not u.kids:
                             u.precedes.append(t)
                         else:
                             t.deps.append((u, onstart, gap))
@@ -666,7 +674,7 @@ def dags(rng, n, alap_share=0.3):
                     p.add_task(c.name + "tag", parent=c, milestone=True, deps=[(u, False, 0)])      # a milestone below the container: at the container's bound
         if alap:
             sinks = [t for t in leaves if not any(d[0] is t for u in order for d in u.deps)
-                     and not any(t in u.precedes for u in order) and not t.precedes]
+                     and not any(t is (pr[0] if isinstance(pr, tuple) else pr) for u in order for pr in u.precedes) and not t.precedes]
             for t in sinks:
                 if rng.random() < 0.7:
                     t.end = start + timedelta(days=rng.randint(20, 30), hours=17)
